@@ -166,6 +166,21 @@ def run(db, tier):
               "the TwoPart arm does not emit cmp_opcode first and jmp_opcode second")
     _cond_tables(db, rep)
     _symbolic_rules(db, rep)
+    # ---- R-EMIT: a statement that reaches one of these lowering steps always produces an instruction
+    rep.rule("R-EMIT", "the lowering functions for assignments, jumps and instruction calls emit something on every non-error path: a statement is "
+                       "never dropped as a no-op (even `a = a;` is a mention of the register that keeps it out of the scratch pool, and a move the "
+                       "script asked for)")
+    EMITTERS = ("lower_eosd_call", "lower_reg_call", "lower_instruction", "lower_assign_op", "lower_assign_op_intrinsic", "lower_assign_direct_binop",
+                "lower_assign_direct_unop", "lower_assign_direct_unop_intrinsic", "lower_assign_direct_ternary", "lower_uncond_jump",
+                "lower_count_jump_or_bust", "lower_count_jump_intrinsic", "lower_cond_jump_comparison", "lower_cond_jump_intrinsic")
+    ALL_LOWER = [g.id for g in db.fns.values() if g.id.startswith(S) and not g.closure and g.id.rsplit("::", 1)[-1].startswith("lower_")]
+    emit_calls = ["::lower_intrinsic", "::lower_intrinsic_by_opcode", "Vec::<T, A>::push"] + ALL_LOWER
+    for nm in EMITTERS:
+        g = db.fn(S + nm)
+        rep.fn(g)
+        okm, badret = flow.must_pass(g, [c for c in emit_calls if c != g.id] + ([g.id] if any(t.get("f") == g.id for _, t in g.calls()) else []))
+        rep.check(okm, "R-EMIT", nm, g.loc, "every non-error path emits an instruction (directly or through another lowering step)",
+                  "%s can return Ok without emitting anything%s: the statement disappears from the compiled script" % (nm, "" if badret is None else " (return in bb%d)" % badret))
     # a register the explicit-register collector misses is handed out as a temporary and clobbered (rule shared with C05)
     from props import c05
     rep.rule("R-TRAVERSAL", "register collection and register substitution walk the same LowerArg shapes, recursively through DiffSwitch (shared with C05)")
